@@ -319,7 +319,7 @@ _ELEM = {"C": "carbon", "N": "nitrogen", "O": "oxygen", "S": "sulfur", "H": "hyd
 
 
 def build_peptide(chains, drop=(), reverse_atoms=False, hydrogens=False):
-    """chains: list of lists of residue names ("TYPE" or "TYPE:NAME-IN-TOPOLOGY").  drop: set of (global residue index,
+    """chains: list of lists of residue names ("TYPE", "TYPE:NAME-IN-TOPOLOGY", either with "@resSeq").  drop: set of (global residue index,
     atom name) left out.
     Returns (topology, layout) where layout = list per chain of list per residue of (resname, {atom name: index}).
     The layout is recorded while building, i.e. independent of mdtraj's own lookups."""
@@ -333,8 +333,10 @@ def build_peptide(chains, drop=(), reverse_atoms=False, hydrogens=False):
         lay = []
         for k, rn in enumerate(names):
             # "HIS:HID": built with the atoms of HIS (recorded as HIS in the layout), named HID in the topology
+            # "HIS@52" / "HIS:HID@52": residue number (resSeq) 52 instead of the default ridx + 1
+            rn, rs = rn.split("@") if "@" in rn else (rn, None)
             rn, topname = rn.split(":") if ":" in rn else (rn, rn)
-            res = top.add_residue(topname, ch, resSeq=ridx + 1)
+            res = top.add_residue(topname, ch, resSeq=(ridx + 1 if rs is None else int(rs)))
             if SIDECHAIN[rn] is None:
                 atoms = ["O", "H1", "H2"]
             else:
